@@ -147,11 +147,11 @@ theorem scan_txs {c : Ctx} {w : Wid} (hAR : AllReady c.own [w]) (bm : BlockMeta)
       (∀ oc' ∈ P ++ occsFrom bm post k, fetchTxUntil c.node oc'.t.id bm.height = some oc'.t) →
       Agree s B → AgreeBal [w] bals B → Loc c.p c.own B → LocG B →
       (∀ hh txs, B.blocks bm.height = some (hh, txs) → hh = bm.hash) →
-      (∀ id loc, B.txrecs (id, bm) = some loc → loc.2 < k) → KeysNodup bals →
+      (∀ id loc, B.txrecs (id, bm) = some loc → loc.2 < k) → (KeysNodup bals ∧ KeysNodup s.unspent) →
       ∃ sb', (itemsOf c w bm post k).foldlM (applyItem c w) (s, bals) = .ok sb' ∧
         Agree sb'.1 ((occsFrom bm post k).foldl (applyOcc c.p c.own) B) ∧
         AgreeBal [w] sb'.2 ((occsFrom bm post k).foldl (applyOcc c.p c.own) B) ∧ SameSync s sb'.1 ∧
-        KeysNodup sb'.2 := by
+        (KeysNodup sb'.2 ∧ KeysNodup sb'.1.unspent) := by
   intro post
   induction post with
   | nil =>
@@ -224,7 +224,7 @@ theorem scan_txs {c : Ctx} {w : Wid} (hAR : AllReady c.own [w]) (bm : BlockMeta)
         applyItem_some (tr := tr) (by rw [← hrs]; exact hr) himp
       rw [hstep]
       obtain ⟨sb2, hs2, hR2, hB2, hS2, hK2⟩ := ih (k + 1) _ _ sb1.1 sb1.2 hGl' hV2 hNode' hR1 hB1 hL' hG' hBH' hTP'
-        (bn_addRelevantMined hKN hs1)
+        ⟨bn_addRelevantMined hKN.1 hs1, wf_addRelevantMined hKN.2 hs1⟩
       exact ⟨sb2, hs2, hR2, hB2, hS1.trans hS2, hK2⟩
     · -- it does not: the books stay; the item (if the index lists it at all) is skipped
       have ht' : Spec.Books.touches c.own B tx = false := by simpa using ht
@@ -276,10 +276,12 @@ theorem node_finds {c : Ctx} (hC : ChainOK c) {h : Nat} {b : Block} (hb : c.node
 theorem scan_height {c : Ctx} {w : Wid} (hAR : AllReady c.own [w]) (hC : ChainOK c) {h : Nat} {b : Block}
     (hb : c.node.chain[h]? = some b) {s : Store} {bals : Bals}
     (hA : AgreeM s (bookOf c.p c.own (c.node.chain.take h)))
-    (hB : AgreeBal [w] bals (bookOf c.p c.own (c.node.chain.take h))) (hKN : KeysNodup bals) :
+    (hB : AgreeBal [w] bals (bookOf c.p c.own (c.node.chain.take h)))
+    (hKN : KeysNodup bals ∧ KeysNodup s.unspent) :
     ∃ sb', (itemsOf c w ⟨h, b.id⟩ b.txs 0).foldlM (applyItem c w) (s, bals) = .ok sb' ∧
       AgreeM sb'.1 (bookOf c.p c.own (c.node.chain.take (h + 1))) ∧
-      AgreeBal [w] sb'.2 (bookOf c.p c.own (c.node.chain.take (h + 1))) ∧ SameSync s sb'.1 ∧ KeysNodup sb'.2 := by
+      AgreeBal [w] sb'.2 (bookOf c.p c.own (c.node.chain.take (h + 1))) ∧ SameSync s sb'.1 ∧
+      (KeysNodup sb'.2 ∧ KeysNodup sb'.1.unspent) := by
   have hsplit : c.node.chain = c.node.chain.take (h + 1) ++ c.node.chain.drop (h + 1) := (List.take_append_drop _ _).symm
   have hsplit0 : c.node.chain = c.node.chain.take h ++ c.node.chain.drop h := (List.take_append_drop _ _).symm
   have hbh : b.height = h := hC.heights h b hb
